@@ -14,8 +14,7 @@ ATOMIC_OK = ("load", "fetch_add", "fetch_sub", "compare_exchange", "compare_exch
 def used_refs(F):
     """every place in the fact base that names MemoryPool.used"""
     out = []
-    for p in F.bodies:
-        f = F.fn(p)
+    for f in F.fns_touching("used", POOL):
         for i, j, dst, rv, line in f.stmts():
             places = [(dst, "w")]
             if rv[0] in ("ref", "raw"):
@@ -66,12 +65,7 @@ def run(F, R):
                 f"borrow of MemoryPool.used flows to {[str(u[1]) if u[0]=='call' else u[0] for u in other]}", f.loc(bb),
                 dict(function=f.path, block=bb, sinks=nm))
     # any function other than constructors that aggregates a MemoryPool
-    ctor = []
-    for p in F.bodies:
-        f = F.fn(p)
-        for i, j, dst, rv, line in f.stmts():
-            if rv[0] == "agg" and rv[1] == "adt:" + POOL:
-                ctor.append(p)
+    ctor = [f.path for f in F.fns_building("adt:" + POOL)]
     R.check(set(ctor) == {POOL + "::new"}, "C33.R1", "constructors", f"MemoryPool literal outside MemoryPool::new: {ctor}", "", dict(ctors=ctor), nontrivial=False)
 
     # ---- R2
@@ -146,8 +140,7 @@ def run(F, R):
 
     # ---- R3
     all_lits = []
-    for p in F.bodies:
-        g = F.fn(p)
+    for g in F.fns_building("adt:" + RES):
         for i, j, dst, rv, line in g.stmts():
             if rv[0] == "agg" and rv[1] == "adt:" + RES:
                 all_lits.append((g, i, rv))
@@ -181,9 +174,8 @@ def run(F, R):
             argok = o[0] == "place" and place_fields(o[1])[-1:] == [("size", RES)]
         R.check(isdrop and argok, "C33.R3", f"release-caller:{c.fn.path}", "MemoryPool::release called outside Drop for MemoryReservation or not with self.size", c.fn.loc(c.bb), dict(caller=c.fn.path))
     # subtractions of used: only release (arg = its parameter) and resize
-    for p in F.bodies:
-        g = F.fn(p)
-        for c in g.calls_to("fetch_sub"):
+    for c in F.callers_matching(lambda n: n.endswith("::fetch_sub")):
+            g = c.fn
             o = origin(g, c.args[0])
             if o[0] == "place" and place_fields(o[1])[-1:] == [("used", POOL)]:
                 R.check(g.path in (POOL + "::release", RES + "::<'a>::resize"), "C33.R3", f"fetch_sub:{g.path}", "MemoryPool.used decremented outside release/resize", g.loc(c.bb), nontrivial=False)
